@@ -195,6 +195,10 @@ CrossHost10 == {
   << Single("$replace", L(<<Single("id", I("2")), S("parts")>>)), Single("v", I("2")) >>,
   << S("$merge:[{id: 2}, parts, v]"), I("2") >>
 }
+(* a whole-document reference to a template that holds a nested map-form $merge: every consumer *)
+(* evaluates its own copy, in its own context; the template itself is left as it was            *)
+Tmpl10 == Mk3("kind", S("template"), "spec", Mk2("$merge", S("over"), "image", S("app")), "over", Single("replicas", I("1")))
+Consumer10(n, r) == Mk3("name", S(n), "over", Single("replicas", I(r)), "app", Single("$replace", Single("$match", Single("kind", S("template")))))
 CrossBad10 == { Single("$replace", Mk2("$match", Single("id", I("7")), "$path", S("t"))),
                 Single("$replace", L(<<Mk2("$invert", True, "id", I("1")), S("t")>>)),
                 Single("$replace", L(<<EmptyMap, S("t")>>)) }
@@ -230,6 +234,9 @@ CasesC10(lazy) ==
   \cup {Case(<<Mk2("id", I("1"), "h", p[1]), Other, Third>>, NoEnv, "cross") : p \in Cross10}
   \cup {Case(<<Mk2("id", I("1"), "h", b), Other, Third>>, NoEnv, "crossbad") : b \in CrossBad10}
   \cup {CaseX(<<Mk2("id", I("1"), "h", p[1]), HostDoc, TmplDoc>>, NoEnv, "crosshost", p[2]) : p \in CrossHost10}
+  \cup {CaseX(ds, NoEnv, "crossnested", <<>>) : ds \in { <<Tmpl10, Consumer10("b", "3"), Consumer10("c", "5")>>,
+                                                         <<Consumer10("b", "3"), Tmpl10, Consumer10("c", "5")>>,
+                                                         <<Consumer10("b", "3"), Consumer10("c", "5"), Tmpl10>> }}
   (* two documents match; one of them is a $merge host: still ambiguous *)
   \cup {Case(<<Mk2("id", I("1"), "h", Single("$replace", L(<<Single("parts", Single("v", I("2"))), S("parts")>>))),
                HostDoc, TmplDoc, Mk2("id", I("4"), "parts", Single("v", I("2")))>>, NoEnv, "crossbad") : dummy \in {1}}
@@ -257,6 +264,13 @@ LawC10(cs) ==
     [] cs.tag = "crosshost" ->
          LET a == EvalS(cs.docs, NoEnv) IN
          cs.docs[1] = cs.docs[1] /\ (a.ok \/ a.err = "undef") /\ (a.ok => At(a.v[1], "h") = cs.aux)
+    [] cs.tag = "crossnested" ->
+         LET a == EvalS(cs.docs, NoEnv)
+             Rep(x) == At(At(At(x, "app"), "spec"), "replicas")
+         IN /\ a.ok /\ Len(a.v) = 3
+            /\ \A x \in Range(a.v) : (Has(x, "name") /\ At(x, "name") = S("b")) => Rep(x) = I("3")
+            /\ \A x \in Range(a.v) : (Has(x, "name") /\ At(x, "name") = S("c")) => Rep(x) = I("5")
+            /\ \A x \in Range(a.v) : Has(x, "kind") => At(At(x, "spec"), "replicas") = I("1")
     [] cs.tag \in {"bad", "crossbad"} -> ~EvalS(cs.docs, NoEnv).ok
     [] cs.tag = "cross" ->
          \E p \in Cross10 : cs.docs[1] = Mk2("id", I("1"), "h", p[1]) /\
@@ -336,6 +350,9 @@ CasesC12(lazy) ==
            : c1 \in {"-1", "0", "2"}, c2 \in {"-2", "0", "1"}}
   \cup {CaseX(<<Single("l", L(<<S("a"), Body12 %% Single("$repeat", I(nc)), S("z")>>))>>, NoEnv, "neglist", Single("l", L(<<S("a"), S("z")>>))) : nc \in {"-1", "-2"}}
   \cup {Case(<<L(<<Single("$repeat", I("-1")), S("$repeat")>>)>>, NoEnv, "negcount") : dummy \in {1}}
+  (* a computed key of an inline repeat uses the index of ITS OWN loop, also inside another loop *)
+  \cup {CaseX(<<Mk2("$repeat", I(NatStr(n)), "m", Single("$\"k{$repeat}\"", Mk2("$repeat", I("3"), "v", S("$repeat"))))>>, NoEnv, "nestedkey", n) : n \in 1..2}
+  \cup {CaseX(<<Single("l", L(<<Mk2("$repeat", I("2"), "m", Single("$\"k{$repeat}\"", Mk2("$repeat", I("3"), "v", S("$repeat"))))>>))>>, NoEnv, "nestedkeylist", 2) : dummy \in {1}}
   \cup {Case(<<Body12 %% Single("$repeat", v)>>, NoEnv, "badcount") : v \in {S("2"), F("1.5"), True, L(<<I("1")>>), Mk2("x", I("1"), "y", S("2")),
                                            (* a bad count is an error also when an earlier name already makes the product empty *)
                                            Mk2("x", I("0"), "y", S("2")), Mk2("x", I("0"), "y", F("1.5")), Mk2("x", I("-1"), "y", True), Mk2("x", S("2"), "y", I("0"))}}
@@ -383,6 +400,12 @@ LawC12(cs) ==
          LET k == CountOf(At(Elems(At(d, "l"))[1], "$repeat")) IN
          Eval1(d) = Ok(<<Single("l", L([i \in 1..k |->
                            Mk2("in", L(<<Single("j", I("0")), Single("j", I("1"))>>), "out", I(NatStr(i - 1)))]))>>)
+    [] cs.tag = "nestedkey" ->
+         LET inner == M([k \in {"k0", "k1", "k2"} |-> Single("v", I(SubSeq(k, 2, 2)))]) IN
+         Eval1(d) = Ok([i \in 1..cs.aux |-> Single("m", inner)])
+    [] cs.tag = "nestedkeylist" ->
+         LET inner == M([k \in {"k0", "k1", "k2"} |-> Single("v", I(SubSeq(k, 2, 2)))]) IN
+         Eval1(d) = Ok(<<Single("l", L(<<Single("m", inner), Single("m", inner)>>))>>)
     [] cs.tag = "negcount" -> (\E k \in {"x", "y"} : IsMap(d) /\ IsMap(At(d, "$repeat")) /\ ~HasPrefix(Pay(At(At(d, "$repeat"), "x")), "-")
                                                       /\ ~HasPrefix(Pay(At(At(d, "$repeat"), "y")), "-")
                                                       /\ CountOf(At(At(d, "$repeat"), "x")) * CountOf(At(At(d, "$repeat"), "y")) > 0)
